@@ -93,6 +93,20 @@ JOINTS = GR.ORDER + GR.ORDER5
 QUICK_SHALLOW = {("G2", "y"), ("G5", "y2"), ("G7", "y"), ("G8", "y"), ("G9", "y"), ("G10", "y")}
 SPECIALS = ["lognormal", "lognormal-cond", "reggauss", "reggauss-cond", "reggmrf-cond", "nonneggmrf", "model-linear", "model-nonlinear",
             "unknown-dim-normal", "unknown-dim-gamma"]
+# linear Bayesian worlds  y | x ~ N(A x, c I),  x ~ N(0, c0 I):  how the LinearModel is defined x geometry x focus original
+LIN_DEFS = ["mat", "fun"]                                   # operator given as a matrix | as forward/adjoint callables
+LIN_GEOMS = ["id", "mapdom", "maprange", "step", "kl"]      # default geometries | MappedGeometry on the domain | on the range |
+#                                                             StepExpansion domain | KLExpansion domain (matrix acts on function values)
+LIN_FOCUS = ["joint", "y", "model"]                         # which object of the world is the original of the cell
+
+
+def lin_specials(tier):
+    out = []
+    for df in LIN_DEFS:
+        for gm in LIN_GEOMS:
+            for fc in LIN_FOCUS:
+                out.append("lin:%s:%s:%s" % (df, gm, fc))
+    return out
 
 
 def cells(tier, seed):
@@ -118,6 +132,8 @@ def cells(tier, seed):
                 out.append({"kind": "factor", "graph": gid, "name": name, "cat": k, "depth": d})
         for sp in SPECIALS:
             out.append({"kind": "special", "name": sp, "cat": k, "depth": 3 if (q or k != cats[0]) else 4})
+        for sp in lin_specials(tier):
+            out.append({"kind": "special", "name": sp, "cat": k, "depth": 2 if q else 3})
     # naming cells: how the random-variable name is given (explicit name= / inferred from the variable the object is
     # assigned to) x when the name is first read; one cell per (world, focus original, first operation on the focus)
     for wid in NAMING_ORDER:
@@ -131,6 +147,10 @@ def cells(tier, seed):
     else:
         for gid in ("G1", "G2", "G9"):
             out.append({"kind": "horizon", "graph": gid, "cat": cats[0], "n": 2000})
+    # refused / consumer operations: "leaf" = they close a history, "full" = ordinary members of the alphabet
+    for c in out:
+        if c["kind"] in ("joint", "factor", "special"):
+            c["closing"] = "leaf-new" if q else ("full" if (c["cat"] == cats[0] and c["depth"] <= 3) else "leaf")
     # longest cells first (better pool utilisation); order is deterministic
     out.sort(key=lambda c: (-(c.get("depth", 9) * 10 + (5 if c["kind"] == "joint" else 0)), str(sorted(c.items()))))
     return out
@@ -252,8 +272,57 @@ class World:
                 self.valsB = {"x": pos(refs.dyadic_vec(4, k + 3)), "a": pos(refs.dyadic_vec(4, k + 4)) + 1, "b": pos(refs.dyadic_vec(4, k + 5))}
                 self.valsC = {"a": np.array([2.0 + 0.5 * k]), "b": np.array([1.5])}
             self.use_condB = True
+        elif name.startswith("lin:"):
+            _, df, gm, fc = name.split(":")
+            _A, _x, _y = lin_world(df, gm, k)
+            if fc == "joint":
+                self.add(D.JointDistribution(_y, _x), "original")
+                for _o in (_y, _x, _A):
+                    self.add(_o, "tracked")
+            elif fc == "y":
+                self.add(_y, "original")
+                for _o in (_x, _A):
+                    self.add(_o, "tracked")
+            elif fc == "model":
+                self.add(_A, "original")
+                for _o in (_y, _x):
+                    self.add(_o, "tracked")
+            else:
+                raise ValueError(name)
+            self.vals = {"x": refs.dyadic_vec(3, k + 1, scale=0.25), "y": refs.dyadic_vec(2, k + 2, scale=0.5)}
+            self.valsB = {"x": refs.dyadic_vec(3, k + 4, scale=0.25), "y": refs.dyadic_vec(2, k + 6, scale=0.5)}
         else:
             raise ValueError(name)
+
+
+def lin_world(df, gm, k):
+    """LinearModel _A (3 parameters -> 2 data) defined by a matrix or by forward/adjoint callables, with default geometries or a
+    non-identity geometry on one side (the operator then acts on FUNCTION values); x ~ N(m0, c0 I) on the domain geometry;
+    y | x ~ N(A x, c I)."""
+    import cuqi
+    G = cuqi.geometry
+    dg, rg, nf = None, None, 3
+    if gm == "mapdom":
+        dg = G.MappedGeometry(G.Continuous1D(3), map=lambda p: 2.0 * p, imap=lambda f: 0.5 * f)
+    elif gm == "maprange":
+        rg = G.MappedGeometry(G.Continuous1D(2), map=lambda p: 4.0 * p, imap=lambda f: 0.25 * f)
+    elif gm == "step":
+        dg, nf = G.StepExpansion(np.linspace(0.0, 1.0, 6), n_steps=3), 6
+    elif gm == "kl":
+        dg, nf = G.KLExpansion(np.linspace(0.0, 1.0, 6), num_modes=3), 6
+    elif gm != "id":
+        raise ValueError(gm)
+    _M = refs.full_matrix(2, nf, k)
+    if df == "mat":
+        _A = cuqi.model.LinearModel(_M, range_geometry=rg, domain_geometry=dg)
+    elif df == "fun":
+        _A = cuqi.model.LinearModel(lambda x: _M @ x, lambda y: _M.T @ y, range_geometry=rg if rg is not None else 2,
+                                    domain_geometry=dg if dg is not None else nf)
+    else:
+        raise ValueError(df)
+    _x = cuqi.distribution.Gaussian(refs.dyadic_vec(3, k + 3, scale=0.125), 0.5 + 0.25 * k, geometry=_A.domain_geometry, name="x")
+    _y = cuqi.distribution.Gaussian(_A, 0.25 + 0.125 * k, name="y")
+    return _A, _x, _y
 
 
 
@@ -520,6 +589,8 @@ def fingerprint(obj, w, light=False):
         rd = guard(lambda: obj.range_dim)
         if isinstance(rd, (int, np.integer)):
             fp.append(("gradient", num(guard(lambda: obj.gradient(np.arange(1.0, rd + 1.0), GR.copy_val(probe))))))
+            if hasattr(obj, "adjoint"):
+                fp.append(("adjoint", num(guard(lambda: obj.adjoint(np.arange(1.0, rd + 1.0))))))
         return fp
     fp.append(("name", guard(lambda: obj.name)))
     names = guard(lambda: tuple(obj.get_parameter_names()))
@@ -577,13 +648,13 @@ def fingerprint(obj, w, light=False):
 
 def fp_diff(a, b):
     """first differing entry name, or None"""
-    if len(a) != len(b):
-        return "entries"
     for (na, va), (nb, vb) in zip(a, b):
         if na != nb:
             return "entries"
         if not same(va, vb):
             return na
+    if len(a) != len(b):
+        return "entries"
     return None
 
 
@@ -614,6 +685,9 @@ def ops_for(w, i):
         for j, _d in enumerate(w.objs):
             if kind_of(_d) == "dist" and w.role[j] != "pool":
                 ops.append(("apply", i, j))
+        ops.append(("refusals", i, None))
+        if consumer_subops(w, i):
+            ops.append(("consumers", i, None))
         return ops
     if kd == "other":
         return ops
@@ -641,7 +715,165 @@ def ops_for(w, i):
     if kd == "joint" and set(names) == GIBBS_VARS and w.graph is not None and w.graph.gid in ("G1", "G2", "G7"):
         ops.append(("gibbs_new", i, None))
         ops.append(("gibbs_old", i, None))
+    if kd in ("dist", "lik", "joint") and names:
+        ops.append(("refusals", i, None))     # operations the library is expected to refuse: they must not leave traces either
+    if kd in ("dist", "lik") and consumer_subops(w, i):
+        ops.append(("consumers", i, None))    # the object used the way the library's estimators / samplers use it
     return ops
+
+
+# ----------------------------------------------------------------------------------------
+# refused operations and consumers (both create nothing: the state after them is the state before them)
+# ----------------------------------------------------------------------------------------
+UNKNOWN_KW = "zz_unknown"
+
+
+def refusal_subops(w, i):
+    """Ordered list of (name, thunk): malformed uses of object i.  The library may refuse each (any exception) or accept it
+    (the result is dropped); what it does must be what it does on a fresh world, and nothing live may change."""
+    obj = w.objs[i]
+    kd = kind_of(obj)
+    v = w.vals
+    out = []
+    val = lambda n: GR.copy_val(v[n])  # noqa
+    if kd == "model":
+        dd = guard(lambda: int(obj.domain_dim))
+        rd = guard(lambda: int(obj.range_dim))
+        if isinstance(dd, int) and isinstance(rd, int):
+            out.append(("bad_forward_size", lambda: obj(np.ones(dd + 2))))
+            out.append(("bad_forward_keyword", lambda: obj(**{UNKNOWN_KW: val("x")})))
+            out.append(("bad_gradient_size", lambda: obj.gradient(np.ones(rd + 2), val("x"))))
+            if hasattr(obj, "adjoint"):
+                out.append(("bad_adjoint_size", lambda: obj.adjoint(np.ones(rd + 2))))
+        return out
+    if kd not in ("dist", "lik", "joint"):
+        return out
+    pn = guard(lambda: list(obj.get_parameter_names()))
+    if not isinstance(pn, list) or not pn:
+        return out
+    known = all(n in v for n in pn)
+    out.append(("bad_keyword", lambda: obj(**{UNKNOWN_KW: 1.0})))                       # y(sigma=2)
+    if len(pn) >= 2 and pn[0] in v:
+        out.append(("bad_keyword_mixed", lambda: obj(**{pn[0]: val(pn[0]), UNKNOWN_KW: 2.0})))
+    if known:
+        out.append(("bad_surplus_positional", lambda: obj(*([val(n) for n in pn] + [1.0]))))
+    if pn[0] in v:
+        out.append(("bad_twice", lambda: obj(val(pn[0]), **{pn[0]: val(pn[0])})))        # positional and keyword
+        out.append(("bad_size", lambda: obj(**{pn[0]: np.ones(np.size(v[pn[0]]) + 2)})))
+    if known:
+        out.append(("bad_logd_missing", lambda: obj.logd(*[val(n) for n in pn[:-1]])))
+        out.append(("bad_logd_missing_keyword", lambda: obj.logd(**{n: val(n) for n in pn[1:]})))
+    if hasattr(obj, "gradient"):
+        out.append(("bad_gradient_missing", lambda: obj.gradient()))
+    if kd == "dist" and len(pn) >= 2 and hasattr(obj, "sample"):
+        out.append(("bad_sample_conditional", lambda: obj.sample(rng=np.random.RandomState(7))))
+    return out
+
+
+def find_prior(w, pname):
+    """an un-conditional original/tracked distribution of the world for the random variable ``pname``"""
+    import cuqi
+    for j in range(w.ntracked):
+        _d = w.objs[j]
+        if kind_of(_d) == "dist" and not isinstance(_d, cuqi.distribution.Posterior) and guard(lambda: _d.name) == pname \
+                and guard(lambda: list(_d.get_parameter_names())) == [pname]:
+            return _d
+    return None
+
+
+def _arr(r):
+    """numeric digest of what a consumer returned"""
+    if hasattr(r, "get_samples"):
+        r = r.get_samples()
+    if hasattr(r, "samples"):
+        r = r.samples
+    if hasattr(r, "todense"):
+        r = r.todense()
+    return np.array(r, dtype=float)
+
+
+def consumer_subops(w, i):
+    """Ordered list of (name, thunk): object i used the way the library's own estimators and samplers use it - through the
+    forward model it carries (get_matrix) and through a BayesianProblem made of it (closed-form or numerical MAP, ML, automatic
+    sampler selection with both interfaces, a few LinearRTO / pCN steps of both interfaces).  Only for objects that carry a
+    forward model; the BayesianProblem is built the way a user would: (data distribution, prior).set_data / (likelihood, prior)."""
+    import cuqi
+    obj = w.objs[i]
+    kd = kind_of(obj)
+    v = w.vals
+    if kd == "model":
+        return [("get_matrix", lambda: _arr(obj.get_matrix()))] if hasattr(obj, "get_matrix") else []
+    if kd not in ("dist", "lik"):
+        return []
+    pn = guard(lambda: list(obj.get_parameter_names()))
+    if not isinstance(pn, list):
+        return []
+    BP = cuqi.problem.BayesianProblem
+    mk = None
+    if isinstance(obj, cuqi.distribution.Posterior):
+        if len(pn) == 1 and pn[0] in v:
+            mk = lambda: BP(obj.likelihood, obj.prior)  # noqa
+    elif kd == "lik":
+        _p = find_prior(w, pn[0]) if len(pn) == 1 else None
+        if _p is not None:
+            mk = lambda: BP(obj, _p)  # noqa
+    elif not isinstance(obj, cuqi.distribution.MultipleLikelihoodPosterior) and len(pn) == 2:
+        nm = guard(lambda: obj.name)
+        _p = find_prior(w, pn[0]) if (nm == pn[1] and nm in v) else None
+        if _p is not None:
+            mk = lambda: BP(obj, _p).set_data(**{nm: GR.copy_val(v[nm])})  # noqa
+    if mk is not None:
+        get_model = lambda: mk().model  # noqa
+    elif kd == "lik" or isinstance(obj, cuqi.distribution.Posterior):
+        get_model = lambda: obj.model  # noqa
+    else:
+        return []
+    _m = guard(get_model)
+    if not isinstance(_m, cuqi.model.Model):
+        return []
+    out = []
+    if hasattr(_m, "get_matrix"):
+        out.append(("get_matrix", lambda: _arr(get_model().get_matrix())))
+    if mk is None:
+        return out
+    M = cuqi.experimental.mcmc
+    S = cuqi.sampler
+    out.append(("bp_map", lambda: _arr(mk().MAP(disp=False))))
+    out.append(("bp_sample_posterior", lambda: _arr(mk().sample_posterior(4))))
+    out.append(("bp_sample_posterior_experimental", lambda: _arr(mk().sample_posterior(4, experimental=True))))
+    out.append(("bp_ml", lambda: _arr(mk().ML(disp=False))))
+    out.append(("linear_rto_old", lambda: _arr(S.LinearRTO(mk().posterior).sample(3))))
+    out.append(("linear_rto_new", lambda: _arr(M.LinearRTO(mk().posterior).sample(3))))
+    out.append(("pcn_old", lambda: _arr(S.pCN(mk().posterior, scale=0.1).sample(3))))
+    out.append(("pcn_new", lambda: _arr(M.PCN(mk().posterior, scale=0.1).sample(3))))
+    return out
+
+
+BUNDLES = {"refusals": refusal_subops, "consumers": consumer_subops}
+REFUSAL_NAMES = ("bad_forward_size", "bad_forward_keyword", "bad_gradient_size", "bad_adjoint_size", "bad_keyword", "bad_keyword_mixed",
+                 "bad_surplus_positional", "bad_twice", "bad_size", "bad_logd_missing", "bad_logd_missing_keyword", "bad_gradient_missing",
+                 "bad_sample_conditional")
+CONSUMER_NAMES = ("get_matrix", "bp_map", "bp_sample_posterior", "bp_sample_posterior_experimental", "bp_ml", "linear_rto_old",
+                  "linear_rto_new", "pcn_old", "pcn_new")
+CLOSING = set(BUNDLES) | set(REFUSAL_NAMES) | set(CONSUMER_NAMES)
+NONCREATING = CLOSING | {"reads", "gibbs_new", "gibbs_old", "mh_new", "mh_old"}
+
+
+def run_subops(w, subs):
+    """execute the sub-operations one after the other, each guarded on its own -> (outcomes, numeric results)"""
+    outs, results = [], {}
+    for nm, thunk in subs:
+        with SavedRNG(6):
+            try:
+                r = thunk()
+                if isinstance(r, np.ndarray):
+                    results[nm] = r
+                    outs.append("%s=done" % nm)
+                else:
+                    outs.append("%s=accepted:%s" % (nm, type(r).__name__))
+            except Exception as e:  # noqa  refused; allowed
+                outs.append("%s=%s" % (nm, type(e).__name__))
+    return outs, results
 
 
 class SavedRNG:
@@ -663,6 +895,14 @@ def do_op(w, op):
     name, i, arg = op
     obj = w.objs[i]
     v = w.vals
+    w.last_results = {}
+    if name in CLOSING:
+        if name in BUNDLES:
+            subs = BUNDLES[name](w, i)
+        else:
+            subs = [x for x in (refusal_subops if name in REFUSAL_NAMES else consumer_subops)(w, i) if x[0] == name]
+        outs, w.last_results = run_subops(w, subs)
+        return "%s[%s]" % (name, " ".join(outs)), None
     try:
         if name == "reads":
             # every read-only operation of the alphabet, with arguments different from the fingerprint's:
@@ -817,7 +1057,20 @@ class Explorer:
         self.res.count("op:" + op[0])
         if outcome.startswith("refused"):
             self.res.refused += 1
-        self.res.outcomes.add(outcome)
+        if op[0] in CLOSING:
+            # one transition per sub-operation; each one's outcome (done / accepted / exception type) is an observed outcome
+            subs = outcome[outcome.index("[") + 1:-1].split()
+            self.res.transitions += max(0, len(subs) - 1)
+            for _s in subs:
+                self.res.outcomes.add("%s:%s" % (kind_of(w.objs[op[1]]), _s))
+                if not (_s.endswith("=done") or "=accepted:" in _s):
+                    self.res.refused += 1
+                    self.res.count("refused:" + _s.split("=")[0])
+                else:
+                    self.res.count("performed:" + _s.split("=")[0])
+        else:
+            self.res.outcomes.add(outcome)
+        results = dict(getattr(w, "last_results", {}))
         if op[0] == "enable_fd":
             # the target's own behaviour legitimately changes: re-baseline it (and the likelihood VIEWS made of it with
             # to_likelihood, which by design wrap the very same distribution object); everything else must be unchanged
@@ -836,6 +1089,27 @@ class Explorer:
                 if w.src[_j] == op[1] and getattr(w, "how", {}).get(_j) == "to_likelihood":
                     w.fp[_j] = fingerprint(w.objs[_j], w)
         nameprob = None
+        # differential oracle for every operation on an ORIGINAL: it ends as it ends on a fresh world ("every later evaluation,
+        # conditioning or sample of the original gives the result it would have given had the intervening operations not
+        # happened"): same outcome (done / refused with the same exception type) and, for consumers, the same numbers
+        f0 = None
+        if op[1] < w.ntracked and (op[0] != "apply" or op[2] < w.ntracked):
+            key = (op[0], op[1], tuple(op[2]) if isinstance(op[2], (tuple, list)) else op[2])
+            cache = self.__dict__.setdefault("_fresh_new_fp", {})
+            if key not in cache:
+                w0 = World(self.cell)
+                _o0, _n0 = do_op(w0, op)
+                cache[key] = (_o0, fingerprint(_n0, w0) if _n0 is not None else None, dict(w0.last_results))
+            o0, f0, r0 = cache[key]
+            self.res.evaluations += 1
+            if o0 != outcome:
+                bad.append((op[1], "outcome", [("outcome", o0)], [("outcome", outcome)], False))
+            else:
+                for _k in sorted(r0):
+                    self.res.evaluations += 1
+                    if not (r0[_k].shape == results[_k].shape and close(r0[_k], results[_k], 1e-7)):
+                        bad.append((op[1], "result", [("result", r0[_k])], [("result", results[_k])], False))
+                        break
         if _new is not None:
             w.add(_new, "pool", op[1], op[0], op[2])
             f1 = fingerprint(_new, w)
@@ -850,14 +1124,7 @@ class Explorer:
                 bad.append((len(w.objs) - 1, d, f1, f2, True))
             # differential oracle for the NEW object: derived from an original it must be what the same operation gives
             # on a fresh world ("the result it would have given had the intervening operations not happened")
-            elif op[1] < w.ntracked and (op[0] != "apply" or op[2] < w.ntracked):
-                key = (op[0], op[1], tuple(op[2]) if isinstance(op[2], (tuple, list)) else op[2])
-                cache = self.__dict__.setdefault("_fresh_new_fp", {})
-                if key not in cache:
-                    w0 = World(self.cell)
-                    _o0, _n0 = do_op(w0, op)
-                    cache[key] = fingerprint(_n0, w0) if _n0 is not None else None
-                f0 = cache[key]
+            else:
                 if f0 is not None:
                     self.res.evaluations += 1
                     d0 = fp_diff(f0, f1)
@@ -969,7 +1236,7 @@ class Explorer:
             desc.append("%s%s" % (f.get("class"), f.get("parameter_names", f.get("argument_names"))))
         return "%s|%s" % (self.label(), "+".join(sorted(desc)))
 
-    def dfs(self, history):
+    def dfs(self, history, newest=None):
         res = self.res
         res.state(self.state_key(self.w))
         if len(history) >= self.depth:
@@ -988,6 +1255,10 @@ class Explorer:
                          "[%s] the focus original offers %d operations, %d expected from its declared parameters: %s"
                          % (self.label(), len(allops), n_exp, [op_str(self.w, o) for o in allops]))
             allops = allops[self.cell["first"]:self.cell["first"] + 1]
+        closing = self.cell.get("closing", "leaf")
+        if closing == "leaf-new" and history and len(history) == self.depth - 1:
+            # last level of the quick tier: refused / consumer operations only on the object the last operation made
+            allops = [o for o in allops if o[0] not in CLOSING or o[1] == newest]
         if not allops:
             res.traces += 1
             return
@@ -1012,11 +1283,19 @@ class Explorer:
                 res.count("alterations_detected")
                 if t is not None:
                     # shorten: drop the non-creating operations before the offending step if it still reproduces
-                    hmin = [o for o in h2[:t] if o[0] not in ("reads", "gibbs_new", "gibbs_old", "mh_new", "mh_old")] + [h2[t]]
+                    hmin = [o for o in h2[:t] if o[0] not in NONCREATING] + [h2[t]]
                     if len(hmin) < t + 1:
                         w3, t3, bad3 = self.replay(hmin)
                         if t3 == len(hmin) - 1 and [b[:2] for b in bad3[:2]] == [b[:2] for b in bad2[:2]]:
                             w2, t, bad2, h2 = w3, t3, bad3, hmin
+                    if h2[t][0] in BUNDLES:
+                        # name the first sub-operation that alone reproduces the first alteration
+                        for _sn in (REFUSAL_NAMES if h2[t][0] == "refusals" else CONSUMER_NAMES):
+                            hsub = h2[:t] + [(_sn, h2[t][1], h2[t][2])]
+                            w3, t3, bad3 = self.replay(hsub)
+                            if t3 == t and bad3 and bad3[0][:2] == bad2[0][:2]:
+                                w2, bad2, h2 = w3, bad3, hsub
+                                break
                     for (j, entry, old, new, isnew) in bad2[:2]:
                         self.report(w2, h2[:t + 1], j, entry, h2[t][0], old, new, confirmed=True, new_object=isnew)
                 else:
@@ -1033,7 +1312,13 @@ class Explorer:
                               "objects": [type(_o).__name__ for _o in w.objs], "all_fingerprints_unchanged": True}
             if naming:
                 self.naming_routes(w, h2)
-            self.dfs(h2)
+            if op[0] in CLOSING and closing != "full":
+                # a refused / consumer operation closes the history: it created nothing, and by the fingerprints just re-taken
+                # the state is the one before it, from which the sibling histories continue on the same live world
+                res.state(self.state_key(self.w) + "|after:" + op[0])
+                res.traces += 1
+                continue
+            self.dfs(h2, newest=(len(w.objs) - 1) if len(w.objs) > n0 else None)
             self.w.truncate(n0)
 
 
